@@ -191,12 +191,28 @@ pub fn run_case(_env: &Env, ctx: &mut Ctx, idx: u64) {
     hooks::reset_pp_frames();
     hooks::set_pp_frame_bound(66 * 66);
     let top = dir.join(&case.top);
-    let via_str = rng.chance(1, 3);
-    let r = if via_str {
-        let s = std::fs::read_to_string(&top).unwrap_or_default();
-        pp_str(&s, &top, &cfg)
-    } else {
-        pp_file(&top, &cfg)
+    // entry point: the preprocessor directly, or the parse entry points in front of it (strict / incomplete).
+    // A parse entry either hands on the preprocessor's error or goes on to parse the text: for a legal depth its
+    // result is Ok or Error::Parse (the payload is not a SystemVerilog description), never a recursion error.
+    let entry = rng.below(8);
+    let via_parse = entry >= 6;
+    let r: Result<Result<(String, ()), Error>, LibPanic> = match entry {
+        0..=3 => pp_file(&top, &cfg).map(|r| r.map(|(t, _)| (t.text().to_string(), ()))),
+        4 | 5 => {
+            let s = std::fs::read_to_string(&top).unwrap_or_default();
+            pp_str(&s, &top, &cfg).map(|r| r.map(|(t, _)| (t.text().to_string(), ())))
+        }
+        6 => {
+            let pc = Cfg { allow_incomplete: rng.chance(1, 2), strip_comments: false, ..cfg.clone() };
+            ctx.count("cases_via_parse_sv", 1);
+            parse_file(Gram::Sv, &top, &pc).map(|r| r.map(|_| (String::new(), ())))
+        }
+        _ => {
+            let pc = Cfg { allow_incomplete: rng.chance(1, 2), strip_comments: false, ..cfg.clone() };
+            ctx.count("cases_via_parse_sv_str", 1);
+            let s = std::fs::read_to_string(&top).unwrap_or_default();
+            parse_str(Gram::Sv, &s, &top, &pc).map(|r| r.map(|_| (String::new(), ())))
+        }
     };
     let (_, high, frames) = hooks::pp_frames();
     hooks::set_pp_frame_bound(0);
@@ -222,19 +238,27 @@ pub fn run_case(_env: &Env, ctx: &mut Ctx, idx: u64) {
             };
             ctx.violation("runaway-recursion", &format!("{}", case.family), &m, witness(&m));
         }
+        Ok(Ok((t, _))) if via_parse => match &case.expect_ok {
+            Some(_) => ctx.count("legal_depths_ok", 1),
+            None => {
+                let m = format!("{} ({}): expected ExceedRecursiveLimit from the parse entry point, got Ok", case.family, case.param);
+                ctx.violation("limit-not-enforced", "", &m, witness(&m));
+            }
+        },
+        Ok(Err(Error::Parse(_))) if via_parse && case.expect_ok.is_some() => ctx.count("legal_depths_ok", 1),
         Ok(Ok((t, _))) => match &case.expect_ok {
             Some(payload) => {
-                let toks = lexer::tokens(t.text());
+                let toks = lexer::tokens(&t);
                 let n = toks.iter().filter(|x| **x == payload.as_str()).count();
                 if n != case.payload_count {
-                    let m = format!("{} ({}): succeeded but the payload token occurs {} times in {:?}", case.family, case.param, n, clip(t.text(), 200));
+                    let m = format!("{} ({}): succeeded but the payload token occurs {} times in {:?}", case.family, case.param, n, clip(&t, 200));
                     ctx.violation("wrong-expansion", "", &m, witness(&m));
                 } else {
                     ctx.count("legal_depths_ok", 1);
                 }
             }
             None => {
-                let m = format!("{} ({}): expected ExceedRecursiveLimit, got Ok({:?})", case.family, case.param, clip(t.text(), 120));
+                let m = format!("{} ({}): expected ExceedRecursiveLimit, got Ok({:?})", case.family, case.param, clip(&t, 120));
                 ctx.violation("limit-not-enforced", "", &m, witness(&m));
             }
         },
